@@ -257,3 +257,26 @@ package core
 //@   ghost perr = result1 at call:OpenContext#1
 //@   ensures !isnil(perr) ==> isnil(result0) && result1 == perr
 //@   ensures isnil(perr) ==> isnil(result1) && !isnil(result0)
+
+// ---- pipe accessors ----
+//@ func (*pipe).Dialer
+//@   ensures p.d == nil ==> isnil(result)
+//@   ensures p.d != nil ==> cast("*dialer", result) == p.d
+//@
+//@ func (*pipe).Listener
+//@   ensures p.l == nil ==> isnil(result)
+//@   ensures p.l != nil ==> cast("*listener", result) == p.l
+//@
+//@ func (*pipe).Address
+//@   ensures p.l == nil && p.d == nil ==> result == ""
+//@   before call:Address#1 assert p.l != nil
+//@   before call:Address#2 assert p.l == nil && p.d != nil
+//@
+//@ func (*pipe).ID
+//@   ensures result == p.id
+//@
+//@ func (*pipe).GetPrivate
+//@   ensures result == p.data
+//@
+//@ func (*pipe).SetPrivate
+//@   ensures p.data == i
